@@ -121,6 +121,7 @@ def run(chk: Check) -> None:
             protocol.resume_writing()
             # the active gateway is the id the transport identified - unless that id is block-listed; nothing else
             eff_active = active if (active is not None and active not in block) else None
+            D.add("filter.active", [",".join(block), ",".join(known), str(bool(enforce)), str(active)], f"ok\t{protocol._active_hgi}")
             if protocol._active_hgi != eff_active:
                 chk.violation("active_gateway:" + ("installed-unidentified" if active is None else "wrong"), f"known={known} block={block}: the transport identified "
                               f"{active} as its gateway; the protocol treats {protocol._active_hgi} as the active gateway", {"op": "filter.active", "known": known, "block": block, "active": active})
